@@ -38,8 +38,11 @@ class _ParseSpec(Spec):
         if tier == "quick":
             for s in docs.g1_shards(2):
                 out.append(self.job(s))
-            for s in docs.g2_shards(pool, replace=True):
-                out.append(self.job(s))
+            mini = set(docs.load_pool("mini"))
+            for i, s in enumerate(docs.g2_shards(pool, replace=True)):
+                # every position of the mini skeletons, every second position of the others
+                if s["base"] in mini or i % 2 == 0:
+                    out.append(self.job(s))
         else:
             for s in docs.g1_shards(3):
                 out.append(self.job(s))
@@ -57,7 +60,7 @@ class _ParseSpec(Spec):
     def bounds_text(self, tier):
         if tier == "quick":
             return {"G1": "all documents of length 0..2 (every cell any Unicode scalar value but NUL/CR)",
-                    "G2": "core skeleton pool (skeletons.txt), one symbolic cell replacing each position",
+                    "G2": "core skeleton pool (skeletons.txt), one symbolic cell replacing each position of the 9 mini skeletons and every second position of the other 14",
                     "per_path_timeout_s": self.per_path_timeout}
         return {"G1": "all documents of length 0..3",
                 "G2": "full skeleton pool, one symbolic cell replacing each position and one inserted at each position; two adjacent symbolic cells at %d listed (skeleton, position) pairs" % len(_PAIRS),
